@@ -1,37 +1,49 @@
 """C09 — failed endpoints fail fast and are used again once reachable.
 
-Two components:
+Three components:
   resurrector  the real ResurrectorSink over harness channels (harness/c09res.py), predictive,
                turn-by-turn on the virtual loop, reachability histories with virtual minutes of back-off;
   respool      the real ResurrectorSink over the real WatermarkPoolSink and the real serial Thrift
                transport on fake sockets (harness/c09pool.py): the fault signal's way
-               transport -> pool -> resurrector (finding F5).
+               transport -> pool -> resurrector (finding F5);
+  heap9        the real HeapBalancerSink over harness channels (harness/c09heap.py, driver harness/heaprun.py):
+               the balancer's down list — a member whose channel is Open again is marked up by the next
+               dispatch, whatever else is listed and in whatever order members went down and came back.
 """
 from lib import vfmt  # noqa
 
 PROPERTY = 'C09'
 COMPONENT = 'resurrector'
-QUICK = dict(gen=2400, timeout=240, exhaustive_r=3)
-THOROUGH = dict(gen=160000, exhaustive_r=4)
+QUICK = dict(gen=3000, timeout=240, exhaustive_r=3)
+THOROUGH = dict(gen=200000, exhaustive_r=4)
+HEAP_SHARE = 0.2        # share of generated scripts for component heap9
 TRUSTED = ['harness channels standing for the resurrector\'s next sink (harness/c09res.py): Open() follows the '
            'scripted reachability, the fault signal is raised by the script',
            'fake sockets standing for the network (harness/fakenet.py)',
            'logging proxy for the name `gevent` inside scales.resurrector (sleep durations, spawned greenlets)',
-           'the back-off waits are computed by the real _TryResurrect and passed to the model as the table defining f']
+           'the back-off waits are computed by the real _TryResurrect and passed to the model as the table defining f',
+           'heap9: harness channels/server set standing for the balancer\'s next sinks (harness/mocks.py); the channel '
+           'state the balancer reads is set by the script; random.randint drawn by __Put is recorded and passed to the model']
 ASSUMPTIONS = ['initial_wait <= max_wait and w <= w ** exponent for the configured values (checked on the '
                'table computed by the real code: it must grow until capped; configurations with initial_wait <= 1 s are outside the claim)',
                'float arithmetic of the back-off is not modelled: waits are compared in integer microseconds',
                'a channel is not re-opened after Close() (the balancers create a new sink instead)',
                'a connect that hangs for ever blocks the retry greenlet for ever (no connect timeout in this layer); '
-               'the recovery bound is stated from the later of: endpoint reachable, last pending connect resolved']
-RULE = ('scripts drawn from the seeded generators of both components; distinct = distinct (cfg, op list); '
+               'the recovery bound is stated from the later of: endpoint reachable, last pending connect resolved',
+               'heap9: channel states change only between balancer calls (gevent is cooperative); fewer than 2^31-1 '
+               'dispatches in the history (theorem hypothesis, part of the reported wf)']
+RULE = ('scripts drawn from the seeded generators of the three components; distinct = distinct (cfg, op list); '
         'non-trivial = the endpoint went down at least once (fault delivered or connect refused) and at least one '
-        'of: a retry, a hang, a close while down, a stale fault, recovery')
+        'of: a retry, a hang, a close while down, a stale fault, recovery; for heap9: a member was marked down and '
+        'at least one of: a member marked up again, two members listed at once, a listed member removed')
 
 CFGS = [[5, 60, 1.2], [5, 60, 1.2], [2, 30, 1.5], [3, 10, 2], [1.5, 20, 1.3], [10, 10, 1.2], [4, 45, 1.1]]
 
 
 def gen_script(rng, tier):
+    if rng.random() < HEAP_SHARE:
+        import c09heap
+        return c09heap.gen_script(rng, tier)
     if rng.random() < 0.3:
         import c09pool
         return c09pool.gen_script(rng, tier)
@@ -143,9 +155,18 @@ def exhaustive(tier, shard, shards):
                     if close:
                         ops += [['close'], ['tick', 200000]]
                     yield {'kind': 'pool', 'cfg': [5, 60, 1.2], 'ops': ops}
+    # the balancer hop: every order of going down x every order of coming back (harness/c09heap.py)
+    import c09heap
+    for s in c09heap.exhaustive(tier, shard, shards):
+        yield s
 
 
 def shrink(script):
+    if script.get('kind') == 'heap':
+        import c09heap
+        for s in c09heap.shrink(script):
+            yield s
+        return
     ops = script['ops']
     for i in range(len(ops)):
         s = dict(script)
@@ -159,6 +180,9 @@ def shrink(script):
 
 
 def run_script(script):
+    if script.get('kind') == 'heap':
+        import c09heap
+        return c09heap.run_script(script)
     if script.get('kind') == 'pool':
         import c09pool
         return c09pool.run_script(script)
@@ -167,6 +191,9 @@ def run_script(script):
 
 
 def nontrivial(case):
+    if case.get('comp') == 'heap9':
+        import c09heap
+        return c09heap.nontrivial(case)
     t = set(case.get('tags', []))
     went_down = bool(t & {'went-down', 'connect-refused', 'fault-mid-traffic'})
     return went_down and bool(t & {'retry', 'hang-resolved-ok', 'hang-resolved-fail', 'close-while-down',
